@@ -459,7 +459,6 @@ def bad_names():
 def check_bad(dns, cls, name, pos):
     """A name that cannot be represented must be refused (by the constructor or by the encoder)."""
     spec = {"q": [], "an": []}
-    A = [b"h.example", 1, 60, "A", [V4S[0]]]
     if pos == "query":
         spec["q"] = [[name, 1, 1]]
     elif pos == "owner":
